@@ -1,8 +1,9 @@
 #!/bin/bash
 # Idempotent: build the overlay venv the checks run in (offline).
-# /verif/.venv = venv of /venv's python + .pth to /venv's site-packages (numpy 1.26.4, scipy) + z3-solver, crosshair-tool from the wheelhouse.
+# <verif>/.venv = venv of /venv's python + .pth to /venv's site-packages (numpy 1.26.4, scipy) + z3-solver, crosshair-tool from the wheelhouse.
 set -e
-V=/verif/.venv
+ROOT="$(cd "$(dirname "$0")/.." && pwd)"
+V="$ROOT/.venv"
 if [ -x "$V/bin/python" ] && "$V/bin/python" -c "import z3, numpy, scipy, crosshair" 2>/dev/null; then exit 0; fi
 (
   flock 9
@@ -14,4 +15,4 @@ if [ -x "$V/bin/python" ] && "$V/bin/python" -c "import z3, numpy, scipy, crossh
   PIP_NO_INDEX=1 "$V/bin/pip" install -q --no-index --find-links /opt/veriftools/wheels z3-solver crosshair-tool >/dev/null 2>&1 || \
   PIP_NO_INDEX=1 "$V/bin/pip" install -q --no-index --find-links /opt/veriftools/wheels z3-solver
   "$V/bin/python" -c "import z3, numpy, scipy; print('env ok', z3.get_version_string(), numpy.__version__)"
-) 9>/verif/.venv.lock
+) 9>"$ROOT/.venv.lock"
